@@ -36,6 +36,41 @@ func (f filebufferWithSize) Sync() error {
 	return nil
 }
 
+// Write overwrites in place and zero-fills gaps like a file does; `filebuffer.Buffer.Write` drops everything behind
+// the cursor when it is not at the end of the buffer
+func (f filebufferWithSize) Write(p []byte) (n int, err error) {
+	idx, size := int(f.Index), f.Buff.Len()
+	if idx < 0 || idx == size {
+		return f.Buffer.Write(p)
+	}
+
+	if idx > size {
+		if _, err := f.Buff.Write(make([]byte, idx-size)); err != nil {
+			return 0, err
+		}
+
+		return f.Buffer.Write(p)
+	}
+
+	tail := []byte{}
+	if end := idx + len(p); end < size {
+		tail = append(tail, f.Buff.Bytes()[end:]...)
+	}
+
+	f.Buff.Truncate(idx)
+
+	n, err = f.Buffer.Write(p)
+	if err != nil {
+		return n, err
+	}
+
+	if _, err := f.Buff.Write(tail); err != nil {
+		return n, err
+	}
+
+	return n, nil
+}
+
 func (f filebufferWithSize) Truncate(size int64) error {
 	f.Buff.Truncate(int(size))
 
